@@ -114,7 +114,10 @@ class World:
 
         def select(node, app, message, peers):
             self.s.emit("select", a=getattr(app, "vname", "?"), offered=[p.node_name for p in peers])
+            if self.pick == "default":          # the library's own callback (select_least_used_peer), left in place
+                return default_select(node, app, message, peers)
             return peers[-1] if self.pick == "last" else peers[0]
+        default_select = self.node.peer_route_select_func
         self.node.peer_route_select_func = select
 
     # ------------------------------------------------------------------
@@ -235,7 +238,9 @@ class World:
             out["peers"][self.name2host[name]] = {"conn": c, "st": STATE.get(po.connection.state, "?") if po.connection is not None else "",
                                   "reason": po.disconnect_reason or 0,
                                   "ldisc": (po.last_disconnect - self.t0) if po.last_disconnect else -1,
-                                  "lconn": (po.last_connect - self.t0) if po.last_connect else -1}
+                                  "lconn": (po.last_connect - self.t0) if po.last_connect else -1,
+                                  "cnt": [po.counters.cer, po.counters.cea, po.counters.dwr, po.counters.dwa, po.counters.dpr,
+                                          po.counters.dpa, po.counters.requests, po.counters.answers]}
         for ident, conn in n.connections.items():
             c = self.c_of(conn)
             out["conns"].append(c)
